@@ -99,7 +99,13 @@ func c05Run(t *testing.T, p c05Plan) (res vfResult) {
 			}
 			for _, c := range cmds {
 				c := c
-				pend = append(pend, w.goCmd(func() error { return vfExec(w, r, c).Err }))
+				pend = append(pend, w.goCmd(func() error {
+					cr := vfExec(w, r, c)
+					if cr.Panicked != "" {
+						panic(cr.Panicked)
+					}
+					return cr.Err
+				}))
 			}
 			for _, pc := range pend {
 				<-pc.done
@@ -107,6 +113,10 @@ func c05Run(t *testing.T, p c05Plan) (res vfResult) {
 			synctest.Wait()
 			winners := []int{}
 			for i, pc := range pend {
+				if pc.res.Panicked != "" {
+					res.failf("panic", "racing deploy %d panicked: %s", i, pc.res.Panicked)
+					return
+				}
 				switch cls := vfErrClass(pc.res.Err); cls {
 				case "ok":
 					winners = append(winners, i)
